@@ -160,35 +160,57 @@ def check_maplike_impl(ctx, F):
     ctx.floor("R7", "MapLike impl methods", n, 2)
 
 
-EXPECTED_WRITERS = {
-    # role -> allowed writer function names (counted by hand on the pinned tree, Appendix A)
-    "timelines": {"new", "blend_next_timeline"},
-    "current_state": {"new", "set_state"},
-    "current_values": {"new", "update_current_values"},
-    "pause": {"new", "set_state"},
-    "time": {"new", "advance", "set_state"},
+TRANSITIONS = {"new", "set_state", "advance"}     # the functions whose summaries C04-C06 analyse completely
+FORBIDDEN = {
+    # role -> transition functions that must not write it (checked on their summaries by C04/C05/C06 as well)
+    "current_state": {"advance"},
+    "pause": {"advance"},
 }
 
 
 def check_writers(ctx, F, R):
+    """no function other than the analysed transitions (and private helpers reachable only from them) writes a state field"""
     w = field_writers(F, T.ANIM_ADT)
     inv = {v: k for k, v in R.items()}
+    # call graph among the animator's own functions
+    own = {b["name"]: b for b in F.find(crate="mina_core", impl_self_adt=T.ANIM_ADT)}
+    calls_of = {}
+    for name, b in own.items():
+        cs = set()
+        for blk in b["blocks"]:
+            t = blk["term"]
+            if t["k"] == "call" and "fn" in t["func"]:
+                cs.add(t["func"]["fn"]["name"])
+        calls_of[name] = cs & set(own)
+    reach = set(TRANSITIONS)
+    work = list(TRANSITIONS)
+    while work:
+        x = work.pop()
+        for c in calls_of.get(x, ()):
+            if c not in reach:
+                reach.add(c)
+                work.append(c)
+    others = {n for n in own if n not in TRANSITIONS}
+    reach_other = set()
+    work = [n for n in others if own[n].get("vis") == "pub" or own[n].get("impl_trait")]
+    work = [n for n in work if n not in TRANSITIONS]
+    seen = set(work)
+    while work:
+        x = work.pop()
+        reach_other.add(x)
+        for c in calls_of.get(x, ()):
+            if c not in seen and c not in TRANSITIONS:
+                seen.add(c)
+                work.append(c)
     for field, fns in sorted(w.items()):
         role = inv.get(field)
         if role is None:
             continue
-        names = set()
-        for path in fns:
-            names.add(path.split("::")[-1])
-        extra = names - EXPECTED_WRITERS[role]
-        ctx.ob("R8", "writers/" + role, not extra,
-               "field %s may only be written by %s; also written by %s" % (field, sorted(EXPECTED_WRITERS[role]), sorted(extra)),
-               what="unexpected-writer:" + ",".join(sorted(extra)) if extra else None)
+        names = {path.split("::")[-1] for path in fns}
+        bad = {n for n in names if not (n in TRANSITIONS or (n in reach and n not in reach_other))}
+        bad |= names & FORBIDDEN.get(role, set())
+        ctx.ob("R8", "writers/" + role, not bad,
+               "field %s may only be written by the transition functions %s and private helpers reachable only from them; "
+               "also written by %s" % (field, sorted(TRANSITIONS), sorted(bad)),
+               what="unexpected-writer:" + ",".join(sorted(bad)) if bad else None)
     ctx.floor("R8", "animator fields with writers", len([f for f in w if f in inv]), 5)
-
-
-def controls(ctx, F):
-    from rules import c04
-    tab = T.build(ctx, facts=F, adt_path=c04.CTL_ADT, crate="witness_controls")
-    T.rules_c04(ctx, tab)
-    return [("R5", "stale-pause-record-kept", "animator copy that never discards the pause record")]
